@@ -322,11 +322,17 @@ def task_group(pr, repo):
     pr.explore(ex, thunk, 'Group.setup / calculate_total_pka for CYS')
 
 
+def task_charge_sums(pr, repo):
+    # 'a bridged cysteine is not titrated' - also not in the charge curves: they sum over the titratable groups only (C09-CC)
+    from . import C09
+    C09.task_container_charge(pr, repo)
+
+
 def run(pr, repo):
     from . import C14
     # 'a bridged cysteine is not titrated' also under a titrate-only list that names it
     tasks = [(task_check_distance, ()), (task_cell_lemma, ()), (task_offsets, ()), (task_coverage, ()), (task_group, ()),
-             (C14.task_init_group, ()), (task_plumbing, ())]
+             (C14.task_init_group, ()), (task_plumbing, ()), (task_charge_sums, ())]
     pairs = [('S', 'S', False), ('H', 'C', True)]
     if pr.tier == 'thorough':
         pairs += [('C', 'C', False), ('S', 'S', True), ('H', 'H', False), ('F', 'F', False), ('C', 'S', False), ('N', 'H', True)]
